@@ -195,7 +195,6 @@ func newC13World(r *mrand.Rand, flavour, pfx string, variant int) (*c13W, error)
 		provider.WithPAR(60), provider.WithUnregisteredRedirectURIsForPAR(),
 		provider.WithJAR(goidc.ES256), provider.WithJARByReference(false),
 		provider.WithJAREncryption(goidc.RSA_OAEP),
-		provider.WithJARM(goidc.ES256),
 		provider.WithDPoP(goidc.ES256),
 		provider.WithMTLS("https://mtls.as.example", func(*http.Request) (*x509.Certificate, error) {
 			if w.cert == nil {
@@ -271,7 +270,15 @@ func newC13World(r *mrand.Rand, flavour, pfx string, variant int) (*c13W, error)
 	if variant == 1 {
 		opts = append(opts, provider.WithOpenIDScopeRequired())
 	}
+	if variant != 2 {
+		opts = append(opts, provider.WithJARM(goidc.ES256))
+	}
 	clients := c13Clients(w.ckey)
+	if variant == 2 {
+		for _, c := range clients {
+			c.JARMSigAlg = ""
+		}
+	}
 	for i, c := range clients {
 		if i%2 == 0 {
 			opts = append(opts, provider.WithStaticClient(c))
@@ -678,6 +685,30 @@ func (w *c13W) seed() {
 	meta := `{"redirect_uris":["https://dyn.example/cb"],"grant_types":["authorization_code","refresh_token"],"response_types":["code"],"token_endpoint_auth_method":"client_secret_post","scope":"openid email"}`
 	res := w.do(rawReq{Method: "POST", Target: w.pfx + "/register", Hdr: [][2]string{{"Content-Type", "application/json"}}, Body: meta, Fault: -1})
 	w.dynID, w.dynTok = jsonField(res.Body, "client_id"), jsonField(res.Body, "registration_access_token")
+	// a dynamic client that obtains a token and an interactive session, and is then deleted: its
+	// token and callback stay in the artifact pool
+	res = w.do(rawReq{Method: "POST", Target: w.pfx + "/register", Hdr: [][2]string{{"Content-Type", "application/json"}}, Body: meta, Fault: -1})
+	vid, vtok, vsec := jsonField(res.Body, "client_id"), jsonField(res.Body, "registration_access_token"), jsonField(res.Body, "client_secret")
+	if vid != "" {
+		q := url.Values{"client_id": {vid}, "response_type": {"code"}, "scope": {"openid email"}, "redirect_uri": {"https://dyn.example/cb"}, "state": {"v"},
+			"code_challenge": {thumb(strings.Repeat("v", 50))}, "code_challenge_method": {"S256"}}
+		res = w.do(rawReq{Method: "GET", Target: w.pfx + "/authorize?" + q.Encode(), Fault: -1})
+		if code := locParam(res.Loc, "code"); code != "" {
+			res = w.postForm("/token", form{{"grant_type", "authorization_code"}, {"code", code}, {"redirect_uri", "https://dyn.example/cb"},
+				{"code_verifier", strings.Repeat("v", 50)}, {"client_id", vid}, {"client_secret", vsec}}, nil)
+			w.add("access_token", jsonField(res.Body, "access_token"))
+			w.add("orphan_token", jsonField(res.Body, "access_token"))
+			w.add("refresh_token", jsonField(res.Body, "refresh_token"))
+		}
+		w.polMode = "inprogress"
+		res = w.do(rawReq{Method: "GET", Target: w.pfx + "/authorize?" + q.Encode(), Fault: -1})
+		if strings.HasPrefix(res.Body, "PAGE cb=") {
+			w.add("callback", strings.TrimPrefix(res.Body, "PAGE cb="))
+			w.add("orphan_callback", strings.TrimPrefix(res.Body, "PAGE cb="))
+		}
+		w.polMode = "success"
+		w.do(rawReq{Method: "DELETE", Target: w.pfx + "/register/" + vid, Hdr: [][2]string{{"Authorization", "Bearer " + vtok}}, Fault: -1})
+	}
 }
 
 // ---- the generator ----
@@ -861,7 +892,7 @@ func (w *c13W) gen() rawReq {
 		}
 		return rawReq{Method: "GET", Target: w.pfx + "/authorize?" + qs, Present: present}
 	case k < 57: // callback
-		cb := pick(r, []string{w.art("callback"), junk(), w.art("code"), w.art("request_uri")})
+		cb := pick(r, []string{w.art("callback"), w.art("orphan_callback"), junk(), w.art("code"), w.art("request_uri")})
 		t := w.pfx + "/authorize/" + url.PathEscape(cb)
 		if len(t) > 7000 {
 			t = t[:7000]
@@ -902,7 +933,7 @@ func (w *c13W) gen() rawReq {
 		}
 		return finish(path, f)
 	case k < 90: // userinfo
-		tok := pick(r, []string{w.art("access_token"), junk(), junk()})
+		tok := pick(r, []string{w.art("access_token"), w.art("orphan_token"), junk(), junk()})
 		if strings.ContainsAny(tok, "\r\n\x00") || len(tok) > 8000 {
 			tok = "x"
 		}
@@ -1030,6 +1061,14 @@ func (w *c13W) judge(ctx *RunCtx, rq rawReq, res rawRes, before, after string) (
 	}
 	if refused && !injected {
 		if d := frameDiff(before, after, rq.Present); d != "" {
+			// the presented callback belongs to a session whose client was deleted: a narrower signature
+			for _, p := range rq.Present {
+				for _, o := range w.arts["orphan_callback"] {
+					if p == o && p != "" {
+						d += ":client-deleted"
+					}
+				}
+			}
 			find("frame:"+route+":"+d, fmt.Sprintf("refused request (%d) to %s changed the store: %s", res.Status, route, d))
 		}
 	}
@@ -1037,7 +1076,7 @@ func (w *c13W) judge(ctx *RunCtx, rq rawReq, res rawRes, before, after string) (
 }
 
 func c13Stream(ctx *RunCtx, n int) {
-	per := 1500
+	per := 1000
 	worlds := 0
 	var w *c13W
 	var before string
@@ -1053,7 +1092,7 @@ func c13Stream(ctx *RunCtx, n int) {
 				panic(err)
 			}
 			w.seed()
-			for _, k := range []string{"code", "refresh_token", "access_token", "request_uri", "auth_req_id", "callback", "id_token"} {
+			for _, k := range []string{"code", "refresh_token", "access_token", "request_uri", "auth_req_id", "callback", "id_token", "orphan_token", "orphan_callback"} {
 				if len(w.arts[k]) == 0 {
 					panic("c13: seeding produced no " + k + " in world " + w.name)
 				}
